@@ -3,6 +3,7 @@ package props
 import (
 	"bytes"
 	"fmt"
+	"strings"
 
 	"verif/mc"
 	"verif/ref"
@@ -70,10 +71,12 @@ func c12Items(tier string) []ref.Item {
 		seen[t.String()] = true
 		ts, as := ref.CfgSensitive(t)
 		hasMap := t.Contains(func(x *ref.T) bool { return x.K == ref.KMap })
-		if !ts && !as && !hasMap && len(out)%7 != 0 {
-			continue // keep a sample of insensitive types as controls
-		}
 		it.T = t
+		if !ts && !as && !hasMap && len(out)%7 != 0 {
+			// types no switch concerns: one in seven gets the full battery as a control, all the
+			// others the light one (identical bytes under all four configurations, round trip under both)
+			it.Pos += "/light"
+		}
 		out = append(out, it)
 	}
 	return out
@@ -111,6 +114,43 @@ func c12Case(c *mc.Ctx, cfg ref.Cfg, it ref.Item, v ref.V, vs string, undoc stri
 	}
 	if vs != ref.Str(t, ref.Zero(t)) && (ts || as || hasMap) {
 		c.NonTrivial()
+	}
+	if strings.HasSuffix(it.Pos, "/light") {
+		c.Guard(pre, func() {
+			c.Dim("insensitive-light")
+			var first []byte
+			for i, k := range ref.Cfgs {
+				if verdict, _ := ref.Accept(k, t, ""); verdict != ref.MustAccept {
+					return
+				}
+				p := NewPlenc(k)
+				data, err := p.Marshal(nil, ref.ToReflect(t, v).Addr().Interface())
+				c.Ops(1)
+				if err != nil {
+					c.Violation(pre+k.String()+"|marshal-error", err.Error())
+					return
+				}
+				if i == 0 {
+					first = data
+				} else if !bytes.Equal(first, data) {
+					c.Violation(pre+k.String()+"|switch-changed-a-type-it-does-not-concern", fmt.Sprintf("default %s, %s %s", hx(first), k, hx(data)))
+					return
+				}
+				if k.ProtoArrays && k.ProtoTime {
+					out := fresh(t)
+					if err := p.Unmarshal(data, out.Interface()); err != nil {
+						c.Violation(pre+k.String()+"|unmarshal-error", err.Error()+" data="+hx(data))
+						return
+					}
+					if path, detail, differ := ref.Diff(t, ref.Expect(k, t, "", v, false), ref.FromReflect(t, out.Elem())); differ {
+						c.Violation(pre+k.String()+"|round-trip-mismatch:"+path, detail+" data="+hx(data))
+						return
+					}
+				}
+			}
+			c.Outcome("ok-light")
+		})
+		return
 	}
 	c.Guard(pre, func() {
 		enc := map[ref.Cfg][]byte{}
